@@ -28,8 +28,8 @@ def run_property(pid, tier):
             import calibrate
             cal = calibrate.calibrate(pid, ast_.REPO)
             ctx.extra['calibration'] = cal
-            print('calibration: %d/%d seeded changes reported; %d benign variants: %d silent, %d undecided (exit 2, no violation), %d false alarm; %d skipped (patch no longer applies)' % (
-                cal['seeded_reported'], cal['seeded_applicable'], cal['benign_applicable'], cal['benign_silent'], cal['benign_undecided'], cal['benign_false_alarm'], len(cal['skipped'])))
+            print('calibration: %d/%d seeded changes reported; %d benign variants: %d silent (%d of them with undecided obligations), %d analysis-broken (exit 2), %d false alarm; %d skipped (patch no longer applies)' % (
+                cal['seeded_reported'], cal['seeded_applicable'], cal['benign_applicable'], cal['benign_silent'], cal.get('benign_silent_with_undecided', 0), cal['benign_undecided'], cal['benign_false_alarm'], len(cal['skipped'])))
             for r in cal['unexpected']:
                 print('CALIBRATION-NOTE: %s expected %s, got %s %s' % (r['case'], r['expect'], r['result'], ','.join(r.get('rules', []))))
         return ctx, report.finish(ctx)
